@@ -283,7 +283,24 @@ def samples_from_iterator(iterator):
 
     headers = next(iterator)
     headers = [header.strip() for header in headers]
+    reserved = ["log_likelihood", "log_prior", "log_posterior", "weight"]
+    # Tables written by Samples.write_table end with the four reserved columns. Read those by
+    # position, so that a parameter whose name is also the name of a reserved column (e.g. a
+    # top-level "weight") keeps its own column instead of being overwritten in a dictionary.
+    positional = headers[-len(reserved):] == reserved
     for row in iterator:
+        if positional:
+            values = [float(value) for value in row]
+            log_likelihood, log_prior, _, weight = values[len(headers) - 4:len(headers)]
+            samples.append(
+                Sample(
+                    log_likelihood=log_likelihood,
+                    log_prior=log_prior,
+                    weight=weight,
+                    kwargs=dict(zip(headers[:-4], values)),
+                )
+            )
+            continue
         d = {header: float(value) for header, value in zip(headers, row)}
 
         samples.append(
